@@ -58,6 +58,7 @@ type World struct {
 	delivered map[int]map[string][]byte
 	clients   map[*sumdb.Client]int
 	installs  map[int][]int64
+	gidClient map[int64]int
 	// ConfigHistory is every successfully installed config value, in store order.
 	ConfigHistory [][]byte
 	// FailConfigWrite injects a non-conflict error into the n-th WriteConfig (1-based), 0 = never.
@@ -83,9 +84,27 @@ func Gid() int64 {
 	return id
 }
 
-func (w *World) log(client int, op, arg, res string) Event {
+// Bind attributes the calling goroutine to a client, so that hook events raised on it
+// (which carry no client) can be attributed in the trace.
+func (w *World) Bind(client int) {
+	g := Gid()
 	w.mu.Lock()
-	ev := Event{Seq: len(w.Trace), Client: client, Gid: Gid(), Op: op, Arg: arg, Res: res}
+	if w.gidClient == nil {
+		w.gidClient = map[int64]int{}
+	}
+	w.gidClient[g] = client
+	w.mu.Unlock()
+}
+
+func (w *World) log(client int, op, arg, res string) Event {
+	g := Gid()
+	w.mu.Lock()
+	if client < 0 {
+		if c, ok := w.gidClient[g]; ok {
+			client = c
+		}
+	}
+	ev := Event{Seq: len(w.Trace), Client: client, Gid: g, Op: op, Arg: arg, Res: res}
 	w.Trace = append(w.Trace, ev)
 	w.mu.Unlock()
 	if w.Gate != nil {
